@@ -404,8 +404,17 @@ class Intern:
         return self.t[s]
 
 
+def clist(c, n, xs):
+    """a list as nested applications of the typed constructor abbreviations of HEADER (no notation, no implicit
+    argument to infer: coqc parses and type-checks this several times faster than [a; b; ...])"""
+    out = n
+    for x in reversed(xs):
+        out = "(%s %s %s)" % (c, x, out)
+    return out
+
+
 def unk_term(it, u):
-    return "[]" if u == "" else "[%d]" % it("u:" + u)
+    return "NN" if u == "" else "(NC %d NN)" % it("u:" + u)
 
 
 RET_COQ = ["RUnset", "RRuntime", "RSource"]
@@ -413,34 +422,35 @@ RET_COQ = ["RUnset", "RRuntime", "RSource"]
 
 def val_term(it, v):
     if "s" in v:
-        return "VScalar %d" % it("s:" + v["s"])
+        return "(VScalar %d)" % it("s:" + v["s"])
     if "m" in v:
         m = v["m"]
-        return "VMsg %d %s %s" % (m["a"], flds_term(it, m["f"]), unk_term(it, m["u"]))
-    return "VList [%s]" % "; ".join(val_term(it, i) for i in v["l"])
+        return "(VMsg %d %s %s)" % (m["a"], flds_term(it, m["f"]), unk_term(it, m["u"]))
+    return "(VList %s)" % clist("VC", "VN", [val_term(it, i) for i in v["l"]])
 
 
 def flds_term(it, fs):
-    return "[%s]" % "; ".join("(%d, %s, %s)" % (n, RET_COQ[r], val_term(it, v)) for n, r, v in fs)
+    return clist("FC", "FN", ["(fl %d %s %s)" % (n, RET_COQ[r], val_term(it, v)) for n, r, v in fs])
 
 
 def opts_term(it, o):
     if o is None:
-        return "None"
-    return "(Some (%d, %s, %s))" % (o["a"], flds_term(it, o["f"]), unk_term(it, o["u"]))
+        return "ON"
+    return "(OS %d %s %s)" % (o["a"], flds_term(it, o["f"]), unk_term(it, o["u"]))
 
 
 def elem_term(it, e):
-    return "(Elem %s %d %s %d %s [%s])" % (
+    return "(Elem %s %d %s %d %s %s)" % (
         KINDS[e["k"]], e["a"], opts_term(it, e["o"]), it("r:" + e["r"]), unk_term(it, e["u"]),
-        "; ".join("[%s]" % "; ".join(elem_term(it, c) for c in s) for s in e["s"]))
+        clist("SC", "SN", [clist("EC", "EN", [elem_term(it, c) for c in s]) for s in e["s"]]))
 
 
 def file_term(it, e):
     if e.get("sci") is None:
-        sci = "None"
+        sci = "CN"
     else:
-        sci = "(Some (%d, [%s]))" % (e["sa"], "; ".join("([%s], %d)" % (";".join(str(x) for x in p), it("l:" + d)) for p, d in e["sci"]))
+        sci = "(CS %d %s)" % (e["sa"], clist("LC", "LN", ["(lo %s %d)" % (clist("NC", "NN", [str(x) for x in p]), it("l:" + d))
+                                                           for p, d in e["sci"]]))
     return "(File %s %s)" % (elem_term(it, e), sci)
 
 
@@ -448,11 +458,22 @@ def case_term(o):
     it = Intern()
     return "RC %s %d %s %s %s %d %s %s" % (
         coq_bool(REPAIRED), o["n_input"], file_term(it, o["before"]), file_term(it, o["after"]), coq_bool(o["same_ptr"]),
-        o["n_after"], "None" if o["again"] == o["after"] else "(Some %s)" % file_term(it, o["again"]), coq_bool(o["again_same_ptr"]))
+        o["n_after"], "FileNone" if o["again"] == o["after"] else "(FileSome %s)" % file_term(it, o["again"]), coq_bool(o["again_same_ptr"]))
 
 
 HEADER = ("From Coq Require Import List NArith Bool.\nImport ListNotations.\n"
-          "From PV Require Import Common.Corr Model.Retention.\nOpen Scope N_scope.\n")
+          "From PV Require Import Common.Corr Model.Retention.\nOpen Scope N_scope.\n"
+          "Definition NN : list N := nil. Definition NC (x : N) (l : list N) : list N := cons x l.\n"
+          "Definition FN : list ofld := nil. Definition FC (x : ofld) (l : list ofld) : list ofld := cons x l.\n"
+          "Definition VN : list oval := nil. Definition VC (x : oval) (l : list oval) : list oval := cons x l.\n"
+          "Definition EN : list elem := nil. Definition EC (x : elem) (l : list elem) : list elem := cons x l.\n"
+          "Definition SN : list (list elem) := nil. Definition SC (x : list elem) (l : list (list elem)) : list (list elem) := cons x l.\n"
+          "Definition LN : list loc := nil. Definition LC (x : loc) (l : list loc) : list loc := cons x l.\n"
+          "Definition fl (n : N) (r : ret) (v : oval) : ofld := (n, r, v).\n"
+          "Definition lo (p : list N) (d : N) : loc := (p, d).\n"
+          "Definition ON : option omsg := None. Definition OS (a : N) (fs : list ofld) (u : list N) : option omsg := Some (a, fs, u).\n"
+          "Definition CN : option (N * list loc) := None. Definition CS (a : N) (l : list loc) : option (N * list loc) := Some (a, l).\n"
+          "Definition FileNone : option file := None. Definition FileSome (f : file) : option file := Some f.\n")
 
 
 def golden_case():
